@@ -458,7 +458,7 @@ func reifyValue(
 		if err := reifyInto(opts.opts, newMap, sub); err != nil {
 			return reflect.Value{}, err
 		}
-		return newMap, nil
+		return pointerize(t, baseType, newMap), nil
 
 	case reflect.Slice:
 		v, err := reifySlice(opts, baseType, val)
@@ -540,7 +540,7 @@ func reifyMergeValue(
 		if err != nil {
 			return reflect.Value{}, raiseExpectedObject(opts.opts, val)
 		}
-		return old, reifyMap(opts.opts, old, sub, opts.validators)
+		return oldValue, reifyMap(opts.opts, old, sub, opts.validators)
 
 	case reflect.Struct:
 		sub, err := val.toConfig(opts.opts)
